@@ -7,6 +7,7 @@
 //   C14 rot <keep> <m> <data> <olds> <ops> => <st> <st> ...
 //   C14 ps <self> <known> <peers> => pinfos=.. file=.. loaded=.. order=.. after=.. panic=0|1
 //   C14 psfile <self> <lines> => loaded=.. order=.. panic=0|1
+//   C14 start <ops> <end> <act> <imp> => built=.. pre=.. preoff=.. off=.. post=.. old0=.. start=..   (start.go)
 //
 // Suites are selected with `-suite pins|rot|ps` (ps emits both ps and psfile lines).
 // Everything real values are mapped back to indices of the tables in tables.go.
@@ -107,6 +108,13 @@ func main() {
 						out.Line("%s => %s", c.input(), runPsCrash(c))
 					}
 				}
+			case "start":
+				if suite == "start" {
+					if c, ok := parseStartCase(f[2:]); ok {
+						out.Line("%s => %s", c.input(), runStart(c))
+						flushComments()
+					}
+				}
 			case "psfile":
 				if suite == "ps" {
 					if c, ok := parseFileCase(f[2:]); ok {
@@ -144,6 +152,10 @@ func main() {
 				c := genFileCase(r, k, total)
 				out.Line("%s => %s", c.input(), runFile(c))
 			}
+		case "start":
+			c := genStartCase(r, k, total)
+			out.Line("%s => %s", c.input(), runStart(c))
+			flushComments()
 		case "crash":
 			if k%4 == 3 {
 				c := genPsCrashCase(r, k, total)
